@@ -143,8 +143,11 @@ def check(run, F, tier):
                 if e[0] == "enter" and e[1].endswith("::get_topic_alias_from_props"):
                     win = []
                 elif e[0] == "exit" and e[1].endswith("::get_topic_alias_from_props") and win is not None:
-                    nx = [x for x in win if x[0] == "call" and x[1].endswith("::next")]
-                    found = bool(nx) and conn.possible(F, p, nx[-1][4][1], "std::option::Option") == {"Some"}
+                    rv = e[2] if len(e) > 2 else None     # the helper's result on this path
+                    if rv is not None and rv[0] == "agg":
+                        found = rv[2] == "Some"
+                    elif rv is not None and rv[0] == "sym":
+                        found = conn.possible(F, p, rv[1], "std::option::Option") == {"Some"}
                     break
                 elif win is not None:
                     win.append(e)
